@@ -42,7 +42,7 @@ fn odd_names() -> Vec<&'static str> {
     vec!["a.b", "a-b", "x.y-z", "_lead", "\u{e9}\u{fc}", "\u{dc}n\u{ef}", "a1.2b", "A", "a", "_", "__x", "x__y", "Ab.Cd-Ef_gh"]
 }
 
-fn state_for_name(name: &str, position: &str) -> Option<SchemaSet> {
+pub fn state_for_name(name: &str, position: &str) -> Option<SchemaSet> {
     match position {
         "element" => {
             let mut s = s1();
@@ -51,7 +51,7 @@ fn state_for_name(name: &str, position: &str) -> Option<SchemaSet> {
         }
         "attribute" => {
             let mut s = s1();
-            holder_mut(&mut s).attrs.push(Attr { name: name.into(), ty: TypeRef::b("string"), required: true });
+            holder_mut(&mut s).attrs.push(Attr { name: name.into(), ty: TypeRef::b("string"), required: true, value_constraint: None });
             Some(s)
         }
         "complexType" => {
